@@ -157,7 +157,8 @@ def norm_wm_runs(seq):
     return out
 
 
-def start_harness(w, nsenders, iters, max_len, timed=True, cut='any', adaptive=False, max_timeouts=0):
+def start_harness(w, nsenders, iters, max_len, timed=True, cut='any', adaptive=False, max_timeouts=0,
+                  progress=True):
     new = w.impls[(None, 'Start')]['new'][0]
     setup = w.impls[('Operator', 'Start')]['setup'][0]
     nxt = w.impls[('Operator', 'Start')]['next'][0]
@@ -179,6 +180,29 @@ def start_harness(w, nsenders, iters, max_len, timed=True, cut='any', adaptive=F
         ex.call_function(setup, [Ref(holder, 0), Ref([md], 0)])
         total = sum(len(s) for s in scripts)
         out = hlib.drive(ex, nxt, holder, 2 * total + 8)
+        if ex.env.get('native'):
+            # replay: the model run above fixed the arrival order; now the real Start gets the same batches
+            # in the same order (a model timeout = the sender sleeping 3x max_delay before the next batch)
+            args = [nsenders, int(bool(adaptive)), sum(1 for ev in rx.log if ev[0] == 'batch')]
+            sleep = 0
+            for ev in rx.log:
+                if ev[0] == 'timeout':
+                    sleep = 300
+                    continue
+                args += [ev[1], sleep, len(ev[2])] + hlib.encode_script(ex, ev[2], False)
+                sleep = 0
+            runner, prof = ex.env['native']
+            ex.env['native_used'] = True
+            txt = runner('start', args)[prof]
+            ex.env['native_out'] = txt
+            if txt == 'PANIC':
+                from mirsym.executor import RustPanic
+                raise RustPanic('the real Start panicked on this input')
+            toks = txt.split()
+            if toks and toks[-1] in ('TIMEOUT', 'OVERRUN'):
+                raise Violation('the real Start does not terminate on this input (%s)' % toks[-1], hlib._wit(ex),
+                                {'native': txt})
+            out = [hlib.parse_token(t) for t in toks]
         sx = lambda: {'senders': [[repr(e) for e in s] for s in scripts],
                       'arrival': [(ev[0], ev[1] if len(ev) > 1 else None, len(ev[2]) if len(ev) > 2 else 0)
                                   for ev in rx.log],
@@ -219,7 +243,7 @@ def start_harness(w, nsenders, iters, max_len, timed=True, cut='any', adaptive=F
                       'forwarded watermark is not the minimum over the active upstream replicas', sx)
         if any(b for b in rx.batches):
             raise Violation('Start terminated with undelivered batches', hlib._wit(ex), sx())
-        if ex.env.get('withheld'):
+        if ex.env.get('withheld') and progress:
             from mirsym.explore import discharge
             discharge(ex)       # everything else on this path holds
             raise Violation('watermark released by the end of an upstream replica is not forwarded '
@@ -230,7 +254,7 @@ def start_harness(w, nsenders, iters, max_len, timed=True, cut='any', adaptive=F
     return h
 
 
-def start_tasks(tier, role):
+def start_tasks(tier, role, progress=True):
     ts = []
     if tier == 'quick':
         cfgs = [dict(nsenders=2, iters=1, max_len=2, timed=True, cut='each'),
@@ -249,7 +273,7 @@ def start_tasks(tier, role):
                                             c['cut'], '_adaptive' if c.get('adaptive') else '')
         nm = nm.replace(' ', '').replace('[', '').replace(']', '').replace(',', '-')
         covers = ['watermark_forwarded'] if c['timed'] else (['timeout'] if c.get('adaptive') else [])
-        ts.append(Task(nm, 'start_harness', c,
+        ts.append(Task(nm, 'start_harness', dict(c, progress=progress),
                        bounds='Start::next driven to Terminate with %d upstream replicas x %d iterations x <=%s '
                               'elements (%s), batches cut "%s", every arrival interleaving%s; timestamps symbolic in '
                               '[1000,1006)' % (c['nsenders'], c['iters'], c['max_len'],
@@ -260,6 +284,8 @@ def start_tasks(tier, role):
 
 
 def classify_start(t, v):
+    if '(flushbatch_before_terminate)' in v['msg']:
+        return 'start/flushbatch_before_terminate'
     if '(replica_ended)' in v['msg']:
         return 'start/watermark_withheld_when_replica_ends'
     return 'start/' + v['msg'][:60]
